@@ -122,15 +122,9 @@ def specIsEnum (decl : List Const) (v : Int) : Bool := decl.any (fun c => c.val 
 /-- observation of a decode method as the property sees it -/
 def Dec.obs (d : Dec) : Bool × Int := (d.1.isNone, d.2)
 
-/-- IsEnum probes `(kV, p)`: `p` an integer of the type TV of kind `kV`.  Since /repo ffb3b3d the
-    conversion must round-trip (`v == T(p) && TV(v) == p`), which rules out truncation; what is left
-    is reinterpretation of the sign: a declared value and a probe of OPPOSITE sign that are the same
-    bit pattern both ways (`IsEnum[T, uint8](255)` for `type T int8` with the constant -1;
-    `IsEnum[T, int8](-1)` for `type T uint8` with the constant 255) ⇒ `F_isenum_sign`.  The property
-    quantifies over every integer and 255 is not a declared value of T, so this is inside it. -/
-def F_isenum_sign (kT : Kind) (decl : List Const) (probes : List (Kind × Int)) : Bool :=
-  probes.any (fun p => decl.any (fun c =>
-    (decide (c.val < 0) != decide (p.2 < 0)) && c.val == wrap kT p.2 && wrap p.1 c.val == p.2))
+/-! IsEnum probes `(kV, p)`: `p` an integer of the type TV of kind `kV`.  Since /repo ffb3b3d the
+    conversion must round-trip (no truncation) and since 2c3f80e the signs must agree (no
+    reinterpretation of the bit pattern), so every probe of every integer type is asserted. -/
 
 /-- a probe is a value of its own type -/
 def probesOK (probes : List (Kind × Int)) : Bool :=
@@ -166,6 +160,35 @@ def specString (signed : Bool) (t : Table w) (x : BitVec w) : Str :=
   | none =>
     let S := flagsIn t x
     if S ≠ [] ∧ orAll S = x then .joined (S.map (·.2)) else .dec (decOf signed x)
+
+/-! ### any table at all (flags that are not single bits, overlapping composites, a flag on the sign
+bit): the exact statement of what String() returns
+
+Walking the table in ascending order, a non-zero declared value is PICKED when all its bits are in
+`x` and none of them belongs to a value picked before it.  String(x) is
+  * the declared name when `x` is declared;
+  * the decimal form when `x < 0` or `x > _max` (`_max` = OR of all declared values, in the type's
+    own comparison; with a flag on the sign bit of a signed type `_max` is negative and EVERY
+    undeclared value prints in decimal);
+  * the names of the picked values joined by ", " when they are at least one and cover `x` exactly;
+  * the decimal form otherwise (also when another choice of declared values would have covered `x`:
+    with `1, 2, 3, 5` declared, 7 picks 1 and 2, is left with 4 and prints "7" although 7 = 2 | 5). -/
+
+/-- the picked entries; `covered` = OR of what was picked so far -/
+def picks (x : BitVec w) : Table w → BitVec w → Table w
+  | [], _ => []
+  | e :: rest, covered =>
+    if e.1 ≠ 0 ∧ x &&& e.1 = e.1 ∧ covered &&& e.1 = 0 then e :: picks x rest (covered ||| e.1)
+    else picks x rest covered
+
+def specGeneral (signed : Bool) (t : Table w) (x : BitVec w) : Str :=
+  match t.find? (fun e => e.1 = x) with
+  | some e => .name e.2
+  | none =>
+    if outside signed (orAll t) x then .dec (decOf signed x)
+    else
+      let P := picks x t 0#w
+      if P ≠ [] ∧ orAll P = x then .joined (P.map (·.2)) else .dec (decOf signed x)
 
 /-- v is zero, a single bit, or a union of declared single-bit flags -/
 def shapeOK (t : Table w) (v : BitVec w) : Bool :=
